@@ -742,6 +742,7 @@ Proof.
     + destruct (Bool.eqb _ _); [discriminate|].
       unfold V_THEOREM_GAP. intros H. apply N.eqb_neq in K. lia.
     + destruct (impl_sat_spec ts i); [discriminate|].
+      destruct (Bool.eqb _ _); [discriminate|].
       unfold V_THEOREM_GAP. intros H. apply N.eqb_neq in K. lia.
 Qed.
 
